@@ -185,11 +185,11 @@ PROPS = {
         "title": "Only complete recordings ever bear the .cptv name; crashes leave no debris",
         "level": "fault_enumeration",
         "rule": "Scenarios through the real handleConn + CPTVFileRecorder in a child process (test binary re-executed): S1 one motion recording, S2 two back-to-back, S3 throttle cut, S4 test recording overlapping a motion recording, "
-                "S5 constant recorder on, S6 connection dropped in mid-frame (Stop path), S7 'clear' in mid-recording, S8 test recording and motion recording starting on the same frame, S9 throttle cut and restart within one trigger, S10 every start failing while the header is written, S11 the temporary names of the next 100 ms already taken when the motion recording starts S12 output directory and constant-recordings folder reached through symbolic links S13 an upload backlog of 3000 finished recordings in both directories S14 a relative output-dir with a working directory other than the configuration directory (quick: S1,S3,S4,S5,S6,S8,S10,S11,S12,S13,S14). "
+                "S5 constant recorder on, S6 connection dropped in mid-frame (Stop path), S7 'clear' in mid-recording, S8 test recording and motion recording starting on the same frame, S9 throttle cut and restart within one trigger, S10 every start failing while the header is written, S11 the temporary names of the next 100 ms already taken when the motion recording starts S12 output directory and constant-recordings folder reached through symbolic links S13 an upload backlog of 3000 finished recordings in both directories S14 a relative output-dir with a working directory other than the configuration directory, S15 an output directory whose name contains pattern characters ('[', ']', '*', '?') with the constant recorder on (quick: S1,S3,S4,S5,S6,S8,S10,S11,S12,S13,S14,S15). "
                 "An uncrashed run counts the hook hits H - the file recorder's own hooks (after create, after header, before/after each frame write, before Close, between Close and rename, after rename, abort path) and hook calls inserted by build overlay into a copy of go-cptv's file writer "
                 "(between its three file creations; in Close after flush, header patch, gzip copy, gzip flush/close, buffered flush, before/after closing and deleting the scratch file); then for EVERY n in 0..H the child SIGKILLs itself at hit n. "
                 "Oracles: I1 - every *.cptv decodes header to EOF with the stock reader, checked synchronously at every hook inside the child, by a free-running observer goroutine, and by the parent on the directory as found; "
-                "I2 - after the repository's deleteTempFiles the output directory (incl. constant-recordings/) holds complete recordings only, and none was removed. Each (scenario, n) is a case.",
+                "I2 - after the repository's deleteTempFiles the output directory (incl. constant-recordings/) holds complete recordings only, and none was removed. Each (scenario, n) is a case. Daemon tier (real binary on a private bus): planted debris, SIGKILL in mid-recording, restart with the continuous recorder switched off, and four rounds of a recorder setting changed in config.toml while a full-size camera streams at full speed into a motion recording - the daemon ends itself and nothing incomplete may bear the .cptv name.",
         "assumptions": COMMON_ASSUME + ["process kill only; power-loss durability is not claimed by the property", "crash points inside go-cptv's Close lie between two hooks and are covered only by the free-running observer / random kills",
                                         "'the daemon calls the clean-up at start-up' is visible in runMain but only executed by the optional daemon tier"],
         "level_text": "Fault enumeration over every hook-indexed crash point of each scenario, with a directory scanner + full decode as the oracle before and after the start-up clean-up.",
